@@ -69,6 +69,17 @@ func families(rng *rand.Rand, thorough bool) []input {
 		}
 	}
 	gen(nil, maxLen)
+	// text that begins with the byte the window is pre-filled with (blanks: indented text), with more blank runs inside: the
+	// first matches point into the pre-filled part of the window
+	for i, lead := range []int{2, 3, 4, 8, 2, 4} {
+		n := 30 + 17*i
+		b := bytes.Repeat([]byte{' '}, lead)
+		for len(b) < n {
+			b = append(b, "ab  \n"[rng.Intn(5)])
+		}
+		add(fmt.Sprintf("blank-lead-%d-%d", lead, n), b)
+	}
+	add("blank-lead-code", []byte("    if x {\n        y = 1\n    } else {\n        y =  2\n    }\n    return y\n"))
 	// periodic strings with periods around 1, 2, 3, F and N
 	for _, p := range []int{1, 2, 3, 59, 60, 61, 2047, 2048, 2049} {
 		unit := make([]byte, p)
